@@ -3,7 +3,7 @@ import json
 import z3
 from mirsym.values import *
 from mirsym.models.util import *
-from mirsym.models.util import DOMAINS, RANGES
+from mirsym.models.util import DOMAINS, RANGES, set_domain, set_range
 from mirsym import interp
 
 
@@ -39,13 +39,13 @@ class H:
         self.P.assume(z3.And(z3.UGE(b, z3.BitVecVal(lo, 8)), z3.ULE(b, z3.BitVecVal(hi, 8))))
         for x in exclude:
             self.P.assume(b != z3.BitVecVal(x, 8))
-        DOMAINS[b.get_id()] = frozenset(x for x in range(lo, hi + 1) if x not in exclude)
+        set_domain(b, frozenset(x for x in range(lo, hi + 1) if x not in exclude))
         return b
 
     def byte_in(self, name, alphabet):
         b = self.P.input_bv(name, 8)
         self.P.assume(z3.Or([b == z3.BitVecVal(x, 8) for x in alphabet]))
-        DOMAINS[b.get_id()] = frozenset(alphabet)
+        set_domain(b, frozenset(alphabet))
         return b
 
     def bytes_(self, name, n, **kw):
@@ -56,7 +56,7 @@ class H:
         for i in range(n):
             b = self.P.input_bv('%s_%d' % (name, i), 8)
             self.P.assume(z3.Or(z3.And(z3.UGE(b, 48), z3.ULE(b, 57)), z3.And(z3.UGE(b, 97), z3.ULE(b, 102))))
-            DOMAINS[b.get_id()] = frozenset(list(range(48, 58)) + list(range(97, 103)))
+            set_domain(b, frozenset(list(range(48, 58)) + list(range(97, 103))))
             out.append(b)
         return out
 
@@ -66,14 +66,14 @@ class H:
             self.P.assume(z3.UGE(v, z3.BitVecVal(lo, 32)))
         if hi is not None:
             self.P.assume(z3.ULE(v, z3.BitVecVal(hi, 32)))
-        RANGES[v.get_id()] = [(lo or 0, hi if hi is not None else 0xffffffff)]
+        set_range(v, [(lo or 0, hi if hi is not None else 0xffffffff)])
         return Sc(v, 32)
 
     def u32_in(self, name, intervals):
         """symbolic u32 restricted to a union of closed intervals"""
         v = self.P.input_bv(name, 32)
         self.P.assume(z3.Or([z3.And(z3.UGE(v, z3.BitVecVal(a, 32)), z3.ULE(v, z3.BitVecVal(b, 32))) for a, b in intervals]))
-        RANGES[v.get_id()] = list(intervals)
+        set_range(v, list(intervals))
         return Sc(v, 32)
 
     def choice(self, n):
